@@ -18,7 +18,7 @@ func init() {
 	fw.Register(&fw.Property{
 		ID:    "C01",
 		Level: "exploration",
-		Rule: "cases = PRNG-generated multi-writer histories (chains, forks, merges; 1-4 writers, 3 store types) executed on real stores over the simulated network with per-replica random delivery order, batching (bursts), drops, duplication and deliveries during which a remote block fetch fails (the message is delivered again later), plus observer replicas fed by other routes (exchange on join, manual Sync of shuffled/duplicated head and non-head entries, restart + load from disk, snapshot). " +
+		Rule: "cases = PRNG-generated multi-writer histories (chains, forks, merges; 1-4 writers, 3 store types) executed on real stores over the simulated network with per-replica random delivery order, batching (bursts), drops, duplication and deliveries during which a remote block fetch fails (the message is delivered again later), in every second key-value / document case with more steps where a local write races a merge on the same replica while a schedule-point handler holds one index rebuild until another has finished, plus observer replicas fed by other routes (exchange on join, manual Sync of shuffled/duplicated head and non-head entries, restart + load from disk, snapshot). " +
 			"distinct = hash(store type, step script); non-trivial = (>= 2 writers or a fork in the DAG) and >= 2 replicas with equal non-empty entry sets were compared at some checkpoint",
 		Assumptions: []string{
 			"no two distinct entries share (Lamport time, writer key): each identity writes through one live store that loaded its log (generator guarantees it)",
@@ -48,6 +48,7 @@ func c01Cases(tier string, seed int64) []fw.Case {
 			"writers": 1 + rng.Intn(4),
 			"steps":   10 + rng.Intn(36),
 			"ondisk":  i%4 == 0,
+			"hold":    i%2 == 1,
 		}})
 	}
 	return out
@@ -76,11 +77,23 @@ func c01Run(c fw.Case) fw.Verdict {
 		r.Cfg.WRestart = 3
 	}
 	r.Checks = []func(*Runner, []*Snap, string) *Violation{oracleSameSet, oracleModel}
+	ih := &indexHolder{}
+	if c.Bool("hold") && r.Cfg.Type != tEvent {
+		// more write/merge races, and one index rebuild is held until another has finished: the state must
+		// still be a function of the set of entries, not of which rebuild finished last
+		r.Cfg.WConc = 30
+		r.Cfg.CheckEvery = 1
+		ih.install(e)
+		ih.set(true)
+	}
 	if err := r.Setup(); err != nil {
 		return fw.Verdict{Status: fw.Inconclusive, What: "setup: " + err.Error()}
 	}
 	steps := r.GenSteps(rng)
 	r.Exec(steps)
+	ih.set(false)
+	r.V.Count("index_rebuilds_held", int64(ih.Holds))
+	r.V.Count("index_rebuilds_overtaken_while_held", int64(ih.Overlap))
 	routes := []string{}
 	if r.failed == nil && !r.watchdog {
 		routes = c01Routes(r, rng)
